@@ -57,6 +57,7 @@ package compile
 //@ func (*Compiler).error
 //@   modifies *
 //@   keeps map[string]bool
+//@   keeps map[parse.Node]bool
 //@   preserves c.filter
 //@   ensures false
 //@ func (*Compiler).buildListChildren
@@ -151,6 +152,8 @@ package compile
 //@   assumed
 //@   modifies *
 //@   keeps map[string]bool
+//@   keeps map[parse.Node]bool
+//@   preserves c.typedefChain
 //@ func (featuresMap).set
 //@   assumed
 //@   modifies *
@@ -190,3 +193,9 @@ package compile
 //@   requires c != nil && typ != nil
 //@   modifies *
 //@   callsite @BuildType inmap(c.typedefChain, t18) && !old(inmap(c.typedefChain, t18))
+//@ func (*Compiler).makeBuiltinType
+//@   assumed
+//@   modifies *
+//@ func (*Compiler).makeString
+//@   assumed
+//@   modifies *
